@@ -108,14 +108,52 @@ def run(prop, tier, seed, replay):
     from yaw.redshifts import HistData
 
     # (what travels to the workers by pickle is defined by the methods the classes have: Yaw.C17.class_methods)
-    ck = Check(prop, tier, seed, kernels=["k_schedule", "k_algebra", "k_wrappers"], theorems=THEOREMS + ["Yaw.C17.class_methods", "Yaw.C05.progress_wrapper_transparent", "Yaw.C05.progress_wrapper_flags"],
-               lean_modules=["YawVerif.Props.C05", "YawVerif.Props.C17"], rule=RULE,
+    ck = Check(prop, tier, seed, kernels=["k_schedule", "k_algebra", "k_wrappers", "k_glue"], theorems=THEOREMS + ["Yaw.C17.class_methods", "Yaw.C05.progress_wrapper_transparent", "Yaw.C05.progress_wrapper_flags", "Yaw.Glue.get_size_spec", "Yaw.Glue.num_processes_spec"],
+               lean_modules=["YawVerif.Props.C05", "YawVerif.Props.C17", "YawVerif.Props.Glue"], rule=RULE,
                assumptions=["Pool.imap_unordered returns every result exactly once in SOME order (PARTIAL: the OS scheduler "
                             "is replaced by the controlled permutation; real pools are sampled)",
                             "worker results are transported by pickling"])
     ck.translate()
     ck.lean_check()
     rng = ck.rng
+    # ---- how many workers: every limit (None, 0, 1 … beyond the number of cores) x YAW_NUM_THREADS (unset, 1 … beyond) ------
+    import os
+    cores = par._get_physical_cores()
+    greq, gexp = [], []
+    old_env = os.environ.get("YAW_NUM_THREADS")
+    try:
+        for env in (None, 1, 2, 3, cores, cores + 5):
+            if env is None:
+                os.environ.pop("YAW_NUM_THREADS", None)
+            else:
+                os.environ["YAW_NUM_THREADS"] = str(env)
+            size = par._num_processes()
+            exp_size = cores if env is None else min(env, cores)
+            ck.case(None, ("numproc", env))
+            if size != exp_size:
+                ck.add_violation(f"_num_processes() = {size} with YAW_NUM_THREADS={env} on {cores} cores (expected {exp_size})",
+                                 {"env": env, "cores": cores, "entry": "workers"})
+            greq.append(f"np{len(greq)} numproc {int(env is not None)} {env or 0} {cores}")
+            gexp.append(size)
+            for mw in (None, 0, 1, 2, size, size + 1, 10 * size):
+                got = par.get_size(mw)
+                want = size if not mw else min(mw, size)
+                ck.case(None, ("getsize", env, mw))
+                if got != want or not (1 <= got <= size):
+                    ck.add_violation(f"get_size({mw}) = {got} with {size} available processes (expected {want})",
+                                     {"env": env, "max_workers": mw, "entry": "workers"})
+                greq.append(f"gs{len(greq)} getsize {int(mw is not None)} {mw or 0} {size}")
+                gexp.append(got)
+    finally:
+        if old_env is None:
+            os.environ.pop("YAW_NUM_THREADS", None)
+        else:
+            os.environ["YAW_NUM_THREADS"] = old_env
+    gans = ck.driver("GenGlue", greq)
+    if gans is not None:
+        for r_, e_, a_ in zip(greq, gexp, gans):
+            if int(a_) != e_:
+                ck.add_tie_break("worker count vs generated kernel", {"request": r_, "impl": e_, "model": a_})
     n_cases = 4 if tier == "quick" else 30
     root = C.scratch_root()
     try:
